@@ -29,7 +29,7 @@ RULE = (
     "data or L != R, AND some sequence has length >= 2 or the application is a composite/right action."
 )
 ASSUMPTIONS = ["operands are dense numpy arrays or scipy sparse matrices wrapped by aslinearoperator"]
-REQUIRED_CLASSES = {"all": ["class=orthonormal", "class=biorthogonal", "class=general", "complex", "app=compose", "app=rmatvec", "app=right", "seqlen>=3"]}
+REQUIRED_CLASSES = {"all": ["class=orthonormal", "class=biorthogonal", "class=general", "complex", "app=compose", "app=rmatvec", "app=right", "seqlen>=3", "mixed-dtype-vectors"]}
 
 UNARY = ["T", "H", "conj", "adjoint", "transpose"]
 APPS = ["left_vec", "left_col", "left_mat", "right_vec", "right_mat", "matvec", "rmatvec", "matmat", "rmatmat",
@@ -57,6 +57,8 @@ def _case(draw, tier):
         "B": mat(n - k, k), "M": mat(n, k), "perm": list(draw(st.permutations(range(n)))),
         "A": mat(n, n), "A_sparse": draw(st.booleans()), "X": mat(n, 3), "Y": mat(3, n),
         "steps": steps,
+        # mixed dtypes: one of the two vector sets real, the other complex (only meaningful for complex L != R cases)
+        "mixed": draw(st.sampled_from([None, None, "real_R", "real_L"])),
     }
 
 
@@ -70,6 +72,14 @@ def _arr(M, cplx):
 
 
 def build_vectors(case):
+    mixed = case.get("mixed") if case["complex"] and case["class"] != "orthonormal" else None
+    if mixed:
+        # real right vectors with complex left vectors (L^dagger R = 1 still holds in the biorthogonal class), or the two
+        # sets exchanged
+        c2 = dict(case, mixed=None, B=[[[e[0], 0] for e in row] for row in case["B"]])
+        R, L = build_vectors(c2)
+        R = R.real.copy()
+        return (R, L) if mixed == "real_R" else (L, R)
     n, k, cplx = case["n"], case["k"], case["complex"]
     B = _arr(case["B"], cplx)
     base = np.vstack([np.eye(k), B])[case["perm"]]  # full column rank, R^dagger R = 1 + B^dagger B
@@ -97,6 +107,8 @@ def check_case(case, enforce_all=False):
     n, cplx = case["n"], case["complex"]
     out.labels += [f"class={case['class']}", "complex" if cplx else "real"]
     R, L = build_vectors(case)
+    if L is not None and np.iscomplexobj(R) != np.iscomplexobj(L):
+        out.labels.append("mixed-dtype-vectors")
     D0 = np.eye(n) - R @ (R if L is None else L).conj().T
     try:
         P0 = ComplementProjector(R) if L is None else ComplementProjector(R, L)
@@ -106,6 +118,10 @@ def check_case(case, enforce_all=False):
     if tuple(P0.shape) != (n, n):
         out.fail("shape", f"shape {P0.shape}")
     want_dtype = np.result_type(R.dtype, (R if L is None else L).dtype)
+    if L is not None and np.array_equal(L, R):
+        # left vectors that are numerically the right vectors (possibly stored with another dtype): the projector IS the
+        # Hermitian one built from R alone, and its dtype is that of R
+        want_dtype = R.dtype
     if P0.dtype != want_dtype:
         out.fail("dtype", f"dtype {P0.dtype}, expected {want_dtype}")
     A = _arr(case["A"], cplx)
